@@ -1023,6 +1023,22 @@ class Module(ABC):
         cumsum_ncomp = cumsum_leading_zero(ncomp_per_branch)
         internal_node_inds = np.arange(cumsum_ncomp[-1])
 
+        # Groups are stored as row labels of `.nodes`. Keep them pointing to the same
+        # branches: the rows after the modified branch are shifted and, if the branch
+        # was (partly) a member of a group, all of its new compartments are.
+        num_new = len(view)
+        for group_name, group_inds in self.base.groups.items():
+            group_inds = np.asarray(group_inds)
+            before = group_inds[group_inds < start_idx]
+            in_branch = (group_inds >= start_idx) & (
+                group_inds < start_idx + number_deleted
+            )
+            after = group_inds[group_inds >= start_idx + number_deleted]
+            new_inds = np.arange(start_idx, start_idx + num_new) if in_branch.any() else []
+            self.base.groups[group_name] = np.concatenate(
+                [before, new_inds, after + num_new - number_deleted]
+            ).astype(int)
+
         self.base.nodes = all_nodes
         self.base.ncomp_per_branch = ncomp_per_branch
         self.base.ncomp = ncomp
